@@ -16,8 +16,15 @@ Rate-based variants are held to what the docstrings state:
                          the same number of recurrences" is asserted whenever no row has tied
                          distances (with ties no thresholding can achieve it);
   adaptive               symmetric R, every state has >= min(k, N-1) recurrences other than itself.
-With missing states the rate-based variants are only required to (a) never mark a missing state
-and (b) be a thresholding of the remaining pairs (the docstrings fix no quantile convention then).
+With missing states (NaN samples) the rate-based variants are required to (a) never mark a missing
+state (missing_values=True), (b) be a thresholding of the remaining pairs and (c) select the stated
+quantile position floor(rate*(len-1)) of the distances, where - the docstrings do not say which
+sequence is meant once some pairs have no distance - every reading is admitted: the distances of the
+complete pairs only, all entries with the missing pairs last, or the entries of the object's own
+distance_matrix() (NaN last or dropped); see rate_admissible().  Without missing_values=True, and for
+the classes that have no such option (cross, joint, inter-system), NaN samples get no special
+treatment by the documentation: only the pairs of complete states are judged, plus 'a pair whose
+distance the object itself reports as NaN is never recurrent' (NaN is below no threshold).
 
 normalize=True ("normalize the time series to zero mean and unit standard deviation", per
 component): the library's stored series must be (x - mean)/std per column within 1e-5 (float32
@@ -105,7 +112,34 @@ SCOPE = (
     "set_adaptive_neighborhood_size(k, order=...) (checks RecurrencePlot/adaptive_neighborhood_size[order]/"
     "...): every processing order (all permutations for 2..4 states, 3 random + the reversed order for "
     "10 (40) seeded series of 5..34 points, given as int32 / int64 array) yields a binary "
-    "symmetric matrix with at least min(k, N-1) neighbours per state."
+    "symmetric matrix with at least min(k, N-1) neighbours per state.  "
+    "Missing samples x metric x threshold-selection variant (checks '<Class>/<variant>/missing/...', "
+    "'<Class>/<variant>/missing-never-recurrent'): a tie-free integer series of 8 points with NaN at the "
+    "start / inside / at the end / several (7 patterns) x embeddings none,(2,1),(3,2) (thorough +(2,3)) x "
+    "3 metrics x missing_values False/True, a 2-d series of 6 points with one component or a whole sample "
+    "missing (5 patterns), all series over {0,3,4,NaN} of length 2..4 (thorough 5) without missing_values, "
+    "12 (80) seeded float32 series of 10..30 points with 1..4 NaN; RecurrencePlot and RecurrenceNetwork with "
+    "threshold (attained and intermediate values), threshold_std, recurrence_rate 0/.2/.5/.8/1, "
+    "local_recurrence_rate 0/.3/.6/1, adaptive sizes 1,2,#complete-1, each through the constructor and "
+    "through set_* of a live object; CrossRecurrencePlot (unequal lengths, NaN in x / y / both), "
+    "JointRecurrencePlot / JointRecurrenceNetwork (lags -2,0,1, mixed metrics, unequal embeddings) and "
+    "InterSystemRecurrenceNetwork (constructor and set_* of a live network) with threshold and "
+    "recurrence_rate, plus 9 (60) seeded float32 pairs.  Clauses: with missing_values=True no state with a "
+    "NaN component is recurrent with anything (all variants, adaptive included); complete pairs are "
+    "thresholded strictly at the given threshold; rate variants: complete pairs = [D < q] for q at position "
+    "floor(rate*(len-1)) of (A) the distances of the complete pairs, (B) all entries with the missing pairs "
+    "last, (C)/(D) the entries of the object's own distance_matrix() with NaN last / dropped - any of them; "
+    "if the position of (B)/(C) lies among the missing pairs also the largest distance or +inf (then judged "
+    "only with missing_values=True: checks '.../missing/(row-)quantile-position-among-missing-pairs'); local "
+    "rate with missing_values=True: all complete states have the same number of recurrences when no row of "
+    "complete distances is tied; adaptive with missing_values=True: every complete state has >= min(k, "
+    "#complete-1) neighbours; a cell whose distance the object's own distance_matrix() reports as NaN is "
+    "never recurrent (all classes, with or without missing_values; adaptive excepted).  NOT judged (the "
+    "property text and docstrings give no semantics): rows / columns of states with NaN when "
+    "missing_values=True is not given or not available (the supremum kernel skips NaN components and so "
+    "reports finite 'distances' for them, the diagonal is never computed), threshold_std on series with NaN "
+    "beyond 'R is a thresholding of the complete pairs', neighbour counts of the adaptive variant without "
+    "missing_values=True."
 )
 RULE = (
     "one evaluation = one contract clause group on one constructed object (sizes, embedding, "
@@ -215,7 +249,8 @@ def rate_admissible(fin, extra, n, rate):
       (A) the distances that exist (complete pairs only);
       (B) all n entries, pairs without a distance placed last;
       (C) all n entries as the object's own distance_matrix() holds them (`extra` = its finite values
-          at missing pairs), NaN last.
+          at missing pairs), NaN last;
+      (D) the finite entries of the object's own distance_matrix().
     Returns (thresholds, beyond): beyond = the position of (C) falls among the NaN entries; then (as
     for (B) beyond the finite part) the largest distance and +inf are admitted as well."""
     nf = len(fin)
@@ -224,6 +259,8 @@ def rate_admissible(fin, extra, n, rate):
     for k in (S.quantile_indices(rate, nf) if nf else ()):
         cands.add(fin[k])
     hyb = sorted(list(fin) + list(extra))
+    for k in (S.quantile_indices(rate, len(hyb)) if hyb else ()):
+        cands.add(hyb[k])
     for k in S.quantile_indices(rate, n):
         if k < nf:
             cands.add(fin[k])
@@ -236,6 +273,15 @@ def rate_admissible(fin, extra, n, rate):
     if (beyond or beyond_b) and nf:
         cands.update((fin[-1], INF))
     return sorted(cands), beyond
+
+
+def nan_distance_recurrent(R, Dl):
+    """Cells marked recurrent although the object's own distance matrix holds NaN there (NaN is below
+    no threshold, whatever the treatment of missing values); diagonal cells excluded for square R."""
+    R, Dl = np.asarray(R), np.asarray(Dl, dtype=float)
+    if R.shape != Dl.shape:
+        return []
+    return [(int(i), int(j)) for i, j in zip(*np.nonzero(np.isnan(Dl) & (R != 0)))]
 
 
 def matches_some_threshold(R, D, cands, tol, free0):
@@ -532,6 +578,10 @@ def run_rp(rep, C, w):
             missrec = bad = [i for i in range(N) if miss[i] and (R[i, :].any() or R[:, i].any())]
             if bad:
                 rep.fail(f"{P}/missing-never-recurrent", wit, f"missing states {bad} recurrent: {R.tolist()}")
+        if anymiss and kind != "adaptive_neighborhood_size":
+            bad = nan_distance_recurrent(R, obj.distance_matrix(metric))
+            if bad:
+                rep.fail(f"{P}/missing/nan-distance-never-recurrent", wit, f"cells {bad[:6]} recurrent: {R.tolist()}")
         if kind == "threshold":
             want, free = thr_with_free(D, value, tol)
             if anymiss and not mv:
@@ -685,6 +735,10 @@ def check_crp_object(rep, obj, wit, P, Dxy, kind, value, tol, Nx, Ny, lab="Cross
     if not is_binary(CR):
         rep.fail(f"{lab}/matrix-binary", wit, f"{CR.dtype}")
         return None
+    if missmask is not None:
+        bad = nan_distance_recurrent(CR, obj.distance_matrix(metric))
+        if bad:
+            rep.fail(f"{P}/missing/nan-distance-never-recurrent", wit, f"cells {bad[:6]} recurrent: {CR.tolist()}")
     if kind == "threshold":
         want, free = thr_with_free(Dxy, value, tol)
         if missmask is not None:
@@ -847,7 +901,7 @@ def run_jrp(rep, C, w):
     missx, missy = S.is_missing(sx), S.is_missing(sy)
     anymiss = any(missx) or any(missy)
     mmx, mmy = pair_mask(missx, missx), pair_mask(missy, missy)
-    extras = None
+    extras = nanJ = None
     shared = None
     prev = None
     for vi, (kind, value, via) in enumerate(w["variants"]):
@@ -871,15 +925,22 @@ def run_jrp(rep, C, w):
         if JR is None or np.asarray(JR).shape != (N, N) or int(obj.N) != N:
             rep.fail(f"{lab}/sizes", wit, f"JR {None if JR is None else JR.shape} N={obj.N} want {N}")
             continue
+        if anymiss:
+            if extras is None:       # the distance matrices a plain RecurrencePlot of either state sequence holds
+                RPc = C["RecurrencePlot"]
+                libD = [np.asarray(RPc(st, metric=m, threshold=1.0, silence_level=3).distance_matrix(m), dtype=float)
+                        for st, m in ((sx, mx), (sy, my))]
+                extras = [finite_at(libD[0], mmx), finite_at(libD[1], mmy)]
+                # joint cells where the x-pair or the (shifted) y-pair has a NaN distance
+                nanJ = 1 - S.joint_matrix(1 - np.isnan(libD[0]).astype(np.int8), 1 - np.isnan(libD[1]).astype(np.int8), lag)
+            bad = [(int(i), int(j)) for i, j in zip(*np.nonzero((nanJ == 1) & (np.asarray(JR) != 0)))]
+            if bad:
+                rep.fail(f"{P}/missing/nan-distance-never-recurrent", wit, f"cells {bad[:6]} recurrent: {np.asarray(JR).tolist()}")
         if kind == "threshold":
             alts = [(thr_with_free(Dx, value[0], tol), thr_with_free(Dy, value[1], tol))]
         elif kind == "threshold_std":
             alts = [(thr_with_free(Dx, value[0] * pstd(stdx), GUARD_STD), thr_with_free(Dy, value[1] * pstd(stdy), GUARD_STD))]
         elif anymiss:
-            if extras is None:
-                RPc = C["RecurrencePlot"]
-                extras = [finite_at(RPc(st, metric=m, threshold=1.0, silence_level=3).distance_matrix(m), mm)
-                          for st, m, mm in ((sx, mx, mmx), (sy, my, mmy))]
             qs = []
             for D_, mm, ex, r in ((Dx, mmx, extras[0], value[0]), (Dy, mmy, extras[1], value[1])):
                 cands, beyond = rate_admissible(sorted(float(v) for v in D_[mm == 0].ravel()), ex, D_.size, r)
@@ -1006,6 +1067,12 @@ def run_isrn(rep, C, w):
         for nm, got, alt, mm in (("rp_x", obj.rp_x.recurrence_matrix(), alts[0], masks[0]),
                                  ("rp_y", obj.rp_y.recurrence_matrix(), alts[1], masks[1]),
                                  ("crp_xy", obj.crp_xy.recurrence_matrix(), alts[2], masks[2])):
+            if anymiss:
+                sub = getattr(obj, nm)
+                bad = nan_distance_recurrent(got, sub.distance_matrix(metric))
+                if bad:
+                    rep.fail(f"{P}/missing/{nm}-nan-distance-never-recurrent", wit,
+                             f"cells {bad[:6]} recurrent: {np.asarray(got).tolist()}")
             if alt is not None:
                 hit = [Rw for (Rw, fr) in alt if mat_equal(got, Rw, np.maximum(fr, mm) if anymiss else fr)]
                 if not hit:
@@ -1893,9 +1960,13 @@ def main(argv=None):
         return
     rep.skip("local_recurrence_rate with tied distances in a row: 'same number of recurrences' is not "
              "asserted (no thresholding can achieve it); only the row quantile is")
-    rep.skip("threshold_std on multi-dimensional series and on series with NaN (threshold undefined / "
-             "pooled std not documented)")
-    rep.skip("adaptive_neighborhood_size together with missing values (no documented semantics)")
+    rep.skip("threshold_std on multi-dimensional series (pooled std not documented); on series with NaN "
+             "samples (std undefined) only 'no missing state recurrent' and 'R is a thresholding of the "
+             "complete pairs' are asserted")
+    rep.skip("NaN samples without missing_values=True (and in the cross / joint / inter-system classes, which "
+             "have no such option): rows and columns of the states holding NaN are not judged, except that a "
+             "cell with a NaN distance must not be recurrent; adaptive_neighborhood_size there: only binary "
+             "and symmetric")
     rep.skip("|lag| >= number of (embedded) states in joint plots: empty matrix, outside the documented domain")
     run_all(rep, PROP, args, C, run_case, cases(args.tier, args.seed), n_workers())
     rep.finish()
